@@ -1544,6 +1544,9 @@ func init() {
 			if len(c.Matrix["C10_previous_holder"]) < 40 {
 				return []string{"previous-holder cases missing"}
 			}
+			if len(c.Matrix["C10_other_spellings"]) < 40 {
+				return []string{fmt.Sprintf("requests under other spellings by non-holders: %d cells", len(c.Matrix["C10_other_spellings"]))}
+			}
 			return nil
 		},
 	})
